@@ -37,6 +37,7 @@ type c18Case struct {
 	Hist  []c18Op `json:"hist"`
 	Dir   string  `json:"dir,omitempty"`   // name of the storage directory when it is a special one
 	Fault string  `json:"fault,omitempty"` // write-fault case (c18Faults)
+	Vals  string  `json:"vals,omitempty"`  // "shapes": the value table is c18ValShapes
 }
 
 // c18DirName is the name of the storage directory of the exploration that is running ("" = an ordinary name). hc names
@@ -47,7 +48,16 @@ var c18SpecialDirs = []string{"Lamp [Kitchen]", "a*b", "what?", "[a-", "back\\sl
 
 var c18Vals = [][]byte{[]byte(""), []byte("a"), []byte("abcdef"), bytes.Repeat([]byte("0123456789abcdef"), 256), []byte("abc")}
 
-func c18ValLabel(i int) string { return []string{"empty", "len1", "len6", "len4096", "len3"}[i] }
+func c18ValLabel(i int) string {
+	l := []string{"empty", "len1", "len6", "len4096", "len3"}
+	if i < len(l) && len(c18Vals) == len(l) {
+		return l[i]
+	}
+	return fmt.Sprintf("shape%d", i)
+}
+
+// value shapes: arbitrary byte strings — line breaks, blanks, NUL and 0xff at either end, nothing but line breaks
+var c18ValShapes = [][]byte{[]byte("abc\n"), []byte("\r\n\n"), []byte("x \x00"), []byte("\nabc"), []byte(" lead"), []byte("trail\t"), []byte("\xff\xfe\xff"), []byte("a\r")}
 
 var c18Names = []string{"a", "", "ü", "with/slash", "a:b", string(pat(100, 200)), "\xff\xfe", "ab\xee", "name.entity", "A", strings.Repeat("n", 124)}
 
@@ -88,7 +98,7 @@ func c18DBOps() []c18Op {
 	var ops []c18Op
 	for i := range c18Names {
 		k := fmt.Sprint(i)
-		for v := 0; v < 3; v++ { // three different public keys (lengths 32, 0, 64) → overwrite longer/shorter
+		for v := 0; v < 5; v++ { // public keys of lengths 32, 0, 64 (overwrite longer / shorter) and two whose base64 text looks like hex
 			ops = append(ops, c18Op{Op: "save", Key: k, Val: v})
 		}
 		ops = append(ops, c18Op{Op: "entity", Key: k}, c18Op{Op: "delete-entity", Key: k})
@@ -103,6 +113,10 @@ func c18Pub(v int) []byte {
 		return pat(32, 11)
 	case 1:
 		return []byte{}
+	case 3:
+		return []byte{0x69, 0xb7, 0x1d} // its base64 text "abcd" consists of hexadecimal digits only
+	case 4:
+		return []byte{0x75, 0xe6, 0x9d, 0x6d, 0xe7, 0x9f, 0xd3, 0x5d, 0xb7} // base64 "deadbeef01234" …
 	}
 	return pat(64, 99)
 }
@@ -120,6 +134,9 @@ func c18Play(c *fw.Ctx, layer string, hist []c18Op, dir string) (state string, o
 	model := map[string][]byte{}
 	ents := map[string]db.Entity{}
 	cas := c18Case{Layer: layer, Hist: hist, Dir: c18DirName}
+	if len(c18Vals) == len(c18ValShapes) {
+		cas.Vals = "shapes"
+	}
 	if c18DirName != "" {
 		dir = filepath.Join(filepath.Dir(dir), c18DirName)
 		os.RemoveAll(dir)
@@ -385,6 +402,11 @@ func c18Run(c *fw.Ctx) {
 		c18Keys = []string{"k1", "K1"}
 		c18Explore(c, "storage", c18StorageOps(), depth)
 		c18Keys = saved
+		// one key, values of every shape (line breaks, blanks, NUL, 0xff at either end)
+		savedVals := c18Vals
+		c18Keys, c18Vals = []string{"k1"}, c18ValShapes
+		c18Explore(c, "storage", c18StorageOps(), 3)
+		c18Keys, c18Vals = saved, savedVals
 		// the same searches (one level shallower) in directories whose names contain characters that mean something to
 		// pattern matching, shells or format strings
 		for _, dn := range c18SpecialDirs {
@@ -412,6 +434,9 @@ func c18Run(c *fw.Ctx) {
 		c18Tree(c, "storage", sops, td, c.Shard-2, parts)
 		var dops []c18Op
 		for _, op := range c18DBOps() {
+			if op.Op == "save" && op.Val >= 3 && op.Key != "0" {
+				continue
+			}
 			if op.Key == "0" || op.Key == "5" || op.Key == "7" || op.Key == "9" || op.Op == "entities" || op.Op == "reopen" {
 				dops = append(dops, op)
 			}
@@ -424,7 +449,7 @@ func init() {
 	fw.Register(&fw.Check{
 		ID:     "C18",
 		Level:  "model_checking",
-		Rule:   "explicit-state breadth-first search over the real file storage and pairing database: alphabet Set(k,v) for 3 keys (thorough 4; one looks like an entity file, one is another key plus .tmp) × 5 values (lengths 0,1,3,6,4096), Get, Delete, KeysWithSuffix × 3 suffixes, reopen; SaveEntity (3 key lengths) / EntityWithName / DeleteEntity / Entities / reopen for 9 entity names (ASCII, empty, non-ASCII, with slash, with colon, 100 arbitrary bytes, invalid UTF-8 ending in 0xfe and in 0xee, a name ending in '.entity'). State = exact directory content (file names and bytes); every operation is executed in every discovered state by replaying the state's shortest history on a fresh directory; after every step all keys, listings and entities are compared with a Go map. Because that merging is sound only if the storage object holds nothing but the path, EVERY history of length 3 (thorough 4) over a reduced alphabet (2 keys × 4 values, get, delete, listing, reopen; 3 entity names) is additionally replayed without merging. distinct_nontrivial = distinct (layer, operation) classes executed Added: the searches repeated in storage directories named 'Lamp [Kitchen]', 'a*b', 'what?', '[a-', 'back\\slash', '{x,y}', 'per%cent', ' lead and trail '; writes cut short by the operating system (RLIMIT_FSIZE) for Set and SaveEntity — success only with the complete value, failure leaves the previous one; a storage BFS over two keys that differ only in letter case; entity names \"A\" (next to \"a\") and a 124-byte name. Plus, in a subprocess built with a scheduling point before EVERY statement of hc's packages (textual insertion through go build -overlay): every interleaving with at most 1 (thorough 2) preemptions of pairs of operations on disjoint objects — and, where the property is about served requests, of pairs of handlers on two verified connections of one accessory touching different characteristics — each side must observe exactly what it observes when the two run one after the other (module-level mutable state is what makes them differ).",
+		Rule:   "explicit-state breadth-first search over the real file storage and pairing database: alphabet Set(k,v) for 3 keys (thorough 4; one looks like an entity file, one is another key plus .tmp) × 5 values (lengths 0,1,3,6,4096), Get, Delete, KeysWithSuffix × 3 suffixes, reopen; SaveEntity (3 key lengths) / EntityWithName / DeleteEntity / Entities / reopen for 9 entity names (ASCII, empty, non-ASCII, with slash, with colon, 100 arbitrary bytes, invalid UTF-8 ending in 0xfe and in 0xee, a name ending in '.entity'). State = exact directory content (file names and bytes); every operation is executed in every discovered state by replaying the state's shortest history on a fresh directory; after every step all keys, listings and entities are compared with a Go map. Because that merging is sound only if the storage object holds nothing but the path, EVERY history of length 3 (thorough 4) over a reduced alphabet (2 keys × 4 values, get, delete, listing, reopen; 3 entity names) is additionally replayed without merging. distinct_nontrivial = distinct (layer, operation) classes executed Added: the searches repeated in storage directories named 'Lamp [Kitchen]', 'a*b', 'what?', '[a-', 'back\\slash', '{x,y}', 'per%cent', ' lead and trail '; writes cut short by the operating system (RLIMIT_FSIZE) for Set and SaveEntity — success only with the complete value, failure leaves the previous one; a storage BFS over two keys that differ only in letter case; entity names \"A\" (next to \"a\") and a 124-byte name. Plus, in a subprocess built with a scheduling point before EVERY statement of hc's packages (textual insertion through go build -overlay): every interleaving with at most 1 (thorough 2) preemptions of pairs of operations on disjoint objects — and, where the property is about served requests, of pairs of handlers on two verified connections of one accessory touching different characteristics — each side must observe exactly what it observes when the two run one after the other (module-level mutable state is what makes them differ). Also one key with 8 value shapes (line breaks, blanks, NUL, 0xff at either end, nothing but line breaks) to depth 3, and public keys whose base64 text consists of hexadecimal digits only.",
 		Shards: func(string) int { return 16 },
 		Run:    c18Run,
 		Replay: func(c *fw.Ctx, raw json.RawMessage) {
@@ -435,7 +460,12 @@ func init() {
 				return
 			}
 			c18DirName = cas.Dir
+			savedVals := c18Vals
+			if cas.Vals == "shapes" {
+				c18Vals = c18ValShapes
+			}
 			c18Play(c, cas.Layer, cas.Hist, filepath.Join(c.Scratch, "replay-store"))
+			c18Vals = savedVals
 			c18DirName = ""
 			c.Eval(1)
 			c.State(1)
